@@ -401,7 +401,7 @@ def replay_behaviour(ctx: Ctx, loop: Any, beh: List[Any], consts: dict, src: str
 def random_exec(ctx: Ctx, loop: Any, rng: Any) -> dict:
     side = rng.choice(["server", "client"])
     hb = rng.choice([0, 0, 0, 2, 4])
-    rt = rng.choice([0, 0, 1, 3])
+    rt = rng.choice([0, 0, 1, 1, 3])
     ct = rng.choice([2, 2, 3])
     compress = rng.random() < 0.3
     x = WsExec(loop, side, autoclose=rng.random() < 0.7, autoping=rng.random() < 0.8, heartbeat=hb,
@@ -446,7 +446,7 @@ def random_exec(ctx: Ctx, loop: Any, rng: Any) -> dict:
             acts += ["tick"] * (3 if bl.idle() else 1)
             nt = x.loop.next_timer()
             if can_peer and nt is not None and nt <= x.loop.time() + 1.0:
-                acts += ["frame+tick"] * 3      # a frame and a timer deadline handled in the same loop iteration
+                acts += ["frame+tick"] * 5      # a frame and a timer deadline handled in the same loop iteration
         if ncancel < 1 and rng.random() < 0.12:
             live = [t for t, tk in x.tasks.items() if not tk.done()]
             if live:
@@ -494,6 +494,11 @@ def random_exec(ctx: Ctx, loop: Any, rng: Any) -> dict:
             x.peer("data")
             x.settle()
             x.tick()
+    # a peer that ends the session cleanly once the schedule proper is over
+    if rng.random() < 0.4 and not peer_closed and not dropped:
+        x.settle()
+        if not x.tr.closing:
+            x.peer("close", code)
     tr = x.finish()
     tr["src"] = "random"
     x.teardown()
@@ -596,11 +601,11 @@ def judge(ctx: Ctx, traces: List[dict], label: str) -> None:
 
 
 MODEL_DEVIATIONS = [
-    # (side, invariant expected to fail on the code as found, clause reported, write_cfg overrides)
-    ("server", "CloseCodeRule", "CloseCode1000WithoutPeerClose", dict(fc=True, fe=True)),
-    ("server", "ClosedClosesTransport", "CancelledCloseSkipsCleanup", dict(fs=True, fe=True)),
-    ("server", "CloseCodeRule", "CloseCodeOverwrittenAfterClose", dict(fs=True, fc=True)),
-    ("client", "CloseBounded", "CloseTimeoutRearmedByTraffic", dict(mt=4, mp=3)),
+    # (side, invariant expected to fail on the code as found, clause reported, Fix flag, write_cfg overrides)
+    ("server", "CloseCodeRule", "CloseCode1000WithoutPeerClose", "fs", dict(fc=True, fe=True)),
+    ("server", "ClosedClosesTransport", "CancelledCloseSkipsCleanup", "fc", dict(fs=True, fe=True)),
+    ("server", "CloseCodeRule", "CloseCodeOverwrittenAfterClose", "fe", dict(fs=True, fc=True)),
+    ("client", "CloseBounded", "CloseTimeoutRearmedByTraffic", "fr", dict(mt=4, mp=3)),
 ]
 
 
@@ -614,45 +619,61 @@ def run(ctx: Ctx) -> None:
                 "chatty / polite / silent peers, drop, EOF, cancel); distinct = different event sequences of >= 5 events")
     ctx.assumptions = [
         "virtual time: the clock advances only when the loop is idle (apart from network events arriving at that instant)",
-        "no compression and no write back-pressure: send_frame() and drain() never suspend",
+        "no write back-pressure (drain() never suspends); compression only for the large-message sender B, whose "
+        "executor job completes as a loop handle (never delayed across virtual time)",
         "network events enter at _run_once boundaries, application spawn/cancel anywhere between two handles",
         "peer close codes differ from 1000 so that a made-up 1000 is distinguishable from the peer's code",
     ]
     loop = steploop.new_loop()
     enable_eager(loop)
     pool = ThreadPoolExecutor(max_workers=ctx.pick(10, 6))
-    # ---- 1. models (run concurrently with the replays below; results are registered in a fixed order)
-    model_jobs: List[Tuple[str, Any]] = []
+    # ---- 1. models (run concurrently with the replays below; results are registered in a fixed order).
+    # They are submitted AFTER the dumps and simulations the replays wait for.
+    model_specs: List[Tuple[str, str]] = []
+    relevant = {"server": ("fs", "fc", "fe"), "client": ("fr", "fe")}
     for side in ("server", "client"):
         for fixed in (True, False):
+            if not fixed and all(CODE_NOW[f] for f in relevant[side]):
+                continue        # the code as it is now coincides with the ideal configuration of this side
             for kw in ctx.pick([dict()],
                                [dict(), dict(tasks=("R", "C", "S"), kinds=("data", "close", "ping", "bad"), rt=1),
                                 dict(hb=2, mt=4, kinds=("data", "close", "pong"), mc=0),
-                                dict(autoclose=False, nrecv=3, kinds=("data", "close"), mp=2)]):
+                                dict(autoclose=False, nrecv=3, kinds=("data", "close"), mp=2),
+                                dict(tasks=("R", "C", "B"))]):
                 p, _ = write_cfg(side, fixed=fixed, **kw)
                 name = f"WsSession[{side},{'ideal' if fixed else 'as-coded'}]({','.join(f'{k}={v}' for k, v in kw.items())})"
-                model_jobs.append((name, pool.submit(run_tlc, "WsSession", p, workers=16, timeout=ctx.pick(900, 2400),
-                                                     deadlock=False)))
-    dev_jobs = []
-    for side, inv, clause, kw in MODEL_DEVIATIONS:
+                model_specs.append((name, p))
+    dev_specs = []
+    for side, inv, clause, flag, kw in MODEL_DEVIATIONS:
+        if CODE_NOW[flag]:
+            continue            # repaired in the code: the as-coded model no longer has this deviation
         p, _ = write_cfg(side, fixed=False, invs=[inv], **kw)
-        dev_jobs.append((side, inv, clause, pool.submit(run_tlc, "WsSession", p, workers=4, timeout=600, deadlock=False)))
+        dev_specs.append((side, inv, clause, p))
     # ---- 2. spec -> code: state-graph dumps and simulations are produced in the pool, replayed here
     cover_jobs = []
     sim_jobs = []
     for side in ("server", "client"):
-        cover_cfgs = ctx.pick([dict(mp=1, mt=2, mc=0, md=1), dict(mp=1, mt=2, mc=1, md=0)],
-                              [dict(mp=1, mt=2, mc=1, md=1), dict(mp=2, mt=3, mc=0, md=1), dict(mp=1, mt=3, mc=1, md=0, rt=1)])
+        hb_cover = dict(hb=2, mt=4, mp=2, mc=0, md=0, kinds=("data", "pong"), tasks=("R",))
+        big_cover = dict(tasks=("C", "B"), kinds=("close",), mp=0, mt=1, mc=1, md=1)
+        cover_cfgs = ctx.pick([dict(mp=1, mt=2, mc=0, md=1), dict(mp=1, mt=2, mc=1, md=0), hb_cover, big_cover],
+                              [dict(mp=1, mt=2, mc=1, md=1), dict(mp=2, mt=3, mc=0, md=1), dict(mp=1, mt=3, mc=1, md=0, rt=1),
+                               hb_cover, dict(tasks=("C", "B"), kinds=("close",), mp=1, mt=2, mc=1, md=1)])
         for ck in cover_cfgs:
             p, consts = write_cfg(side, fixed=False, **ck)
             cover_jobs.append((side, ck, consts, pool.submit(cover_behaviours, "WsSession", p, timeout=2400, workers=1)))
         for kw in (dict(tasks=("R", "C", "S"), kinds=("data", "close", "ping", "bad"), rt=1, mp=3, mt=4),
                    dict(hb=2, mt=5, kinds=("data", "close", "pong"), mp=3),
                    dict(autoclose=False, nrecv=3, mp=3, mt=4),
-                   dict(tasks=("R", "C", "D"), kinds=("data", "close", "ping"), mp=3, mt=4, invs=["NoInternalAssert"])):
+                   dict(tasks=("R", "C", "D"), kinds=("data", "close", "ping"), mp=3, mt=4, invs=["NoInternalAssert"]),
+                   dict(tasks=("R", "C", "B"), kinds=("data", "close"), mp=2, mt=3),
+                   dict(tasks=("R", "C"), kinds=("data", "close"), rt=1, nrecv=3, mp=3, mt=5)):
             p, consts = write_cfg(side, fixed=False, **kw)
             sim_jobs.append((side, consts, pool.submit(simulate_behaviours, "WsSession", p, num=ctx.pick(60, 1500), depth=40,
                                                        seed=ctx.seed, timeout=600)))
+    model_jobs = [(name, pool.submit(run_tlc, "WsSession", p, workers=16, timeout=ctx.pick(900, 2400), deadlock=False))
+                  for name, p in model_specs]
+    dev_jobs = [(side, inv, clause, pool.submit(run_tlc, "WsSession", p, workers=4, timeout=600, deadlock=False))
+                for side, inv, clause, p in dev_specs]
     traces: List[dict] = []
     followed = 0
     for side, ck, consts, fut in cover_jobs:
@@ -781,6 +802,29 @@ def selftest(ctx: Ctx) -> int:
             if e["ev"] == "ret" and e["k"] == "close":
                 e["now"] += 5
         muts.append(("CloseBounded", b))
+        b = copy.deepcopy(good)          # heartbeat on, session open, a receive() still blocked after the horizon
+        b["cfg"]["heartbeat"] = 2
+        q = b["events"][-1]
+        q.update(closed=False, cc=0, tcl=False)
+        blk = dict(FIELDS)
+        blk.update(ev="blocked", t="Rp", k="receive", now=q["now"])
+        b["events"].insert(len(b["events"]) - 1, blk)
+        muts.append(("ReceiveNotStuck", b))
+        for seen, want in ((True, "CloseCodeRule"), (False, "")):
+            # a receive() timed out earlier (session stayed open); final code 1006: excused only as long as the
+            # application was not handed the peer's Close frame
+            b = copy.deepcopy(good)
+            j = next(k for k, e in enumerate(b["events"]) if e["ev"] == "rx" and e["k"] == "close")
+            extra = []
+            for info, code in (("Timeout", 0),) + ((("CLOSE", PEER_CODE),) if seen else ()):
+                e3 = dict(FIELDS)
+                e3.update(ev="ret", t="R", k="receive", info=info, code=code)
+                extra.append(e3)
+            b["events"][j + 1:j + 1] = extra
+            for e4 in b["events"][j:]:
+                if e4["cc"]:
+                    e4["cc"] = 1006
+            muts.append((want, b))
         vs, _ = validate_batch("WsSessionTrace", "WsSessionTrace.cfg", [good] + [m for _, m in muts])
         print(side, [(v.ok, v.clause, v.pos) for v in vs])
         ok = ok and vs[0].ok and all(v.clause == want for v, (want, _) in zip(vs[1:], muts))
